@@ -45,6 +45,7 @@ enum
     MOP_BITS_YUV,           /* a source image in one of the two YUV formats (yuy2, yv12): can be read, never written */
     MOP_R_FROM_IMAGE,       /* pixman_region{,32}_init_from_image of an a1 image in a slot */
     MOP_BITS_REFUSED,       /* pixman_image_create_bits with a row stride that is not a multiple of 4: must return NULL and keep nothing */
+    MOP_R_SHARED_BINOP,     /* union / intersect / subtract with an operand from another machine's regions (shared, read-only) */
     MOP_N
 };
 
@@ -106,6 +107,7 @@ typedef struct machine
     int cb_unexpected;            /* destroy callback for an object the machine no longer tracks */
     arena_buf_t *retired[64];     /* storage of released images: kept until the machine goes, aliases may still point into it */
     int n_retired;
+    struct machine *shared_regions;   /* regions of this machine serve as read-only operands of r_shared_binop (NULL: none) */
     int allow_huge;               /* MOP_BITS_HUGE is honoured (only the world that never walks whole images sets it) */
     int own_violation;            /* pixel storage pixman allocated itself is smaller than the image it describes */
     char own_detail[160];
@@ -128,6 +130,7 @@ typedef struct
     int model_ret;                /* what the model says ret must be (valid when model_valid) */
     int model_valid;
     int created_slot;             /* image slot a constructor filled, or -1 */
+    uint64_t aux;                 /* digest of a result that lives outside the machine (a filter table) */
 } mstep_t;
 
 machine_t *machine_new (int faults_enabled, int guarded, int chain);
